@@ -35,6 +35,10 @@ def build_repo(rng, root, big=False):
     put('metadata/layout.conf', b'masters =\n')
     if rng.random() < 0.5:
         put('metadata/timestamp.chk', b'ts\n')
+    # (every rsync bookkeeping file the Manifests of metadata/ IGNORE)
+    for n in ('timestamp', 'timestamp.commit', 'timestamp.x'):
+        if rng.random() < 0.3:
+            put('metadata/' + n, n.encode() + b'\n')
     for c in cats:
         os.makedirs(os.path.join(root, c), exist_ok=True)
         if rng.random() < 0.5:
@@ -70,6 +74,8 @@ def build_repo(rng, root, big=False):
             put('metadata/%s/item%d.xml' % (s, k), b'<x/>' + blob(5))
         if rng.random() < 0.3:
             put('metadata/%s/timestamp.chk' % s, b'chk\n')
+        if rng.random() < 0.3:
+            put('metadata/%s/timestamp.commit' % s, b'commit\n')
     for n in rng.sample(['header.txt', 'skel.ebuild', 'skel.metadata.xml'], rng.randrange(0, 3)):
         put(n, b'top ' + blob(5))
     # hidden directories holding files with ordinary names (editor / VCS leftovers): nobody lists them
